@@ -184,18 +184,26 @@
   (or (eq? (bag-comparator bag1) (bag-comparator bag2))
       (error "can't compare bags with different comparators" bag1 bag2)))
 
+;; every element of bag1 occurs at least as many times in bag2
+(define (bag-counts<=? bag1 bag2)
+  (let ((ht2 (bag-table bag2)))
+    (not (hash-table-find
+          (lambda (elt count) (> count (hash-table-ref/default ht2 elt 0)))
+          (bag-table bag1)
+          (lambda () #f)))))
+
 (define (bag=? bag1 . bags)
   (or (null? bags)
       (and (comparable-bags? bag1 (car bags))
            (= (bag-size bag1) (bag-size (car bags)))
-           (bag-every? (lambda (elt) (bag-contains? bag1 elt)) (car bags))
+           (bag-counts<=? bag1 (car bags))
            (apply bag=? bags))))
 
 (define (bag<? bag1 . bags)
   (or (null? bags)
       (and (comparable-bags? bag1 (car bags))
            (< (bag-size bag1) (bag-size (car bags)))
-           (bag-every? (lambda (elt) (bag-contains? (car bags) elt)) bag1)
+           (bag-counts<=? bag1 (car bags))
            (apply bag<? bags))))
 
 (define (bag>? . bags)
@@ -205,7 +213,7 @@
   (or (null? bags)
       (and (comparable-bags? bag1 (car bags))
            (<= (bag-size bag1) (bag-size (car bags)))
-           (bag-every? (lambda (elt) (bag-contains? (car bags) elt)) bag1)
+           (bag-counts<=? bag1 (car bags))
            (apply bag<=? bags))))
 
 (define (bag>=? . bags)
